@@ -209,6 +209,33 @@ Definition check (s : sx) : Z :=
       | Some same => both ((ms =? timestamp_spec sec nsec) && same) (ms =? timestamp_ms sec nsec)
       | None => code_decode_error
       end
+  (* ---- the process switched to model.LegacyValidation: NewDesc + NewConstMetric(GaugeValue) ---- *)
+  | SL [SZ 10; SZ 0; ds; impl] =>
+      match d_dspec ds with
+      | Some x =>
+          let acceptable := desc_ok_spec_legacy (ds_fq x) (ds_vars x) (ds_consts x) && lvs_ok_spec x in
+          let mo := new_const_metric (new_desc_legacy (ds_fq x) (ds_help x) (ds_vars x) (ds_consts x)) 2 pzero (ds_lvs x) in
+          match impl with
+          | SL [SZ 0; SZ code] => both (negb acceptable) (match mo with Err e => err_code e =? code | Ok _ => false end)
+          | SL [SZ 1; labels] =>
+              match dLP labels with
+              | Some labels => both (acceptable && labels_ok_spec x labels)
+                                    (match mo with Ok o => lps_eqb (so_labels o) labels | Err _ => false end)
+              | None => code_decode_error
+              end
+          | _ => code_decode_error
+          end
+      | None => code_decode_error
+      end
+  (* ---- model.LegacyValidation: NewMetricWithExemplars over a const counter, accept / error kind ---- *)
+  | SL [SZ 10; SZ 1; exs; SZ code] =>
+      match dExIn exs with
+      | Some exs =>
+          let acceptable := negb (Nat.eqb (length exs) 0) && forallb (fun p => exemplar_ok_spec_legacy (snd p)) exs in
+          let mc := match exs with [] => 13 | _ => match new_exemplars_legacy exs with Some e => err_code e | None => 0 end end in
+          both (Bool.eqb acceptable (code =? 0)) (norm_code exs mc =? norm_code exs code)
+      | None => code_decode_error
+      end
   (* ---- stacks of timestamp wrappers (innermost first), inner metrics that write their own timestamp ---- *)
   | SL [SZ 9; inner; layers; ms; same] =>
       match dOpt dZ inner, dZZ layers, dOpt dZ ms, dB same with
